@@ -245,13 +245,15 @@ def _subs(e):
 
 
 def insert_params(F, g):
-    """(key parameter index, id parameter index) of a store-insert function, from its DashMap::insert call"""
-    for bb, t in g.calls():
-        if dashmap_call(t) == ("insert", "S"):
-            k = g.op_origin(t["args"][1])
-            v = inline_ctor(F, g.op_origin(t["args"][2]))
-            if k[0] == "param" and v[0] == "agg":
-                kid = dict(v[3]).get("key_id")
-                if kid is not None and kid[0] == "param":
-                    return k[1], kid[1]
+    """(key parameter index, id parameter index) of a store-insert function, from the DashMap::insert it performs (directly
+    or through a private helper; the value's constructor inlined)"""
+    for p in ipaths(F, g, stop=lambda n: False, depth=2):
+        for e in p.events:
+            if dashmap_call(e.t) == ("insert", "S"):
+                k = e.args[1]
+                v = inline_ctor(F, e.args[2])
+                if k[0] == "param" and v[0] == "agg":
+                    kid = dict(v[3]).get("key_id")
+                    if kid is not None and kid[0] == "param":
+                        return k[1], kid[1]
     return None, None
